@@ -21,6 +21,7 @@ F64_EMAX == 1023
 
 Rec == ndJsonDeserialize(IOEnv.TRACE)
 OutFile == IOEnv.OUT
+DriftOn == "DRIFT" \in DOMAIN IOEnv /\ IOEnv.DRIFT = "1"
 
 VARIABLE l
 tvars == <<l, regs, memo>>
@@ -84,6 +85,8 @@ TrCall == /\ l <= Len(Rec) /\ Rec[l].fam # "ctl" /\ l' = l + 1
                  meta == [sp |-> ev.sp, cfg |-> ev.cfg, d |-> ev.d]
                  fails == CallFails(ev.fam, ev.op, A, r, meta)
              IN /\ Note(ev, fails)
+                /\ (IF DriftOn /\ (Drifted(ev.op, A, r) \/ DriftNoOverlap(ev.op, A, r))
+                    THEN TLCSet(6, Append(TLCGet(6), [l |-> l, op |-> ev.op, sp |-> ev.sp])) ELSE TRUE)
                 /\ Call(ev.fam, ev.op, A, r, meta)
 
 TraceInit == /\ l = 1
@@ -93,6 +96,7 @@ TraceInit == /\ l = 1
              /\ TLCSet(3, 0)
              /\ TLCSet(4, <<>>)
              /\ TLCSet(5, <<>>)
+             /\ TLCSet(6, <<>>)
 TraceNext == TrGroup \/ TrCall
 TraceSpec == TraceInit /\ [][TraceNext]_tvars
 
@@ -105,7 +109,7 @@ TraceTypeOK == /\ l \in 1..(Len(Rec) + 1)
 TraceAccepted ==
   LET consumed == TLCGet(3)
       res == [events |-> Len(Rec), consumed |-> consumed, devs |-> TLCGet(1), stats |-> TLCGet(2),
-              skipped_lines |-> TLCGet(4), undecided |-> TLCGet(5)]
+              skipped_lines |-> TLCGet(4), undecided |-> TLCGet(5), drift |-> TLCGet(6)]
   IN /\ JsonSerialize(OutFile, res)
      /\ (consumed = Len(Rec) \/ PrintT(<<"TRACE NOT CONSUMED", consumed, Len(Rec)>>))
      /\ consumed = Len(Rec)
